@@ -282,7 +282,7 @@ func (r *runner) bytesCodecs() {
 		rec("", n)
 	}
 	// seeded
-	n := c.N(3000, 60000)
+	n := c.N(3000, 400000)
 	for i := 0; i < n; i++ {
 		max := 64
 		if i%50 == 0 {
